@@ -16,6 +16,9 @@ CLAIMED = {
  'C01': ('PBT: differential against a reference PEG interpreter (exhaustive shapes x all short inputs + hypothesis grammars)',
          'Generated-input search: every depth<=1 core expression in 13 exposing parent contexts, a seeded stride through all depth-2 shapes and hypothesis multi-rule grammars (text+bytes) are compared on all short inputs with an independent naive PEG interpreter; bounds stated in evidence. Finds wrong static flags / missing restores; proves nothing beyond the explored bounds.',
          'Trusts vlib/peg.py reference semantics (DESIGN Appendix A, self-tested on hand cases); alphabet {a,b,Z}, inputs <= 5 (9 sampled), depth <= 5.'),
+ 'C05': ('PBT: hypothesis grammars with let / class members / parameters / where / |> / <| / symbolic counts; reference interpreter with functional environments',
+         'Generated-input search: grammars from a scope-aware recursive generator (generated rules, classes with plain/let/pass/requires members, generated templates, a template library) plus rule families built to rebind one name several times within one parse (abandoned alternative, iterations, recursive and sibling invocations, lookahead, class recursion) are run through every parameterless rule and class on all inputs of length <= 4 over {a,b,1,2} and random longer ones, and compared with a reference interpreter whose environments are immutable dicts (an abandoned branch cannot leak).',
+         'Shadow-then-read is excluded by construction (known finding F24, witness replayed); inline Python from a closed language.'),
  'C09': ('PBT: exhaustive line-length x error-column sweep + hypothesis multi-line texts through generated grammars; validity predicate (independent line/column, caret and excerpt checks)',
          'Generated-input search: (i) complete sweep of line length 1..260 x every error column x preceding/following text shapes through three error paths (ParseError via sequence and via choice farthest-failure, PartialParseError); (ii) hypothesis core grammars (text with an ignore pattern for blanks/newlines, and bytes) on multi-line texts with lines up to 400 characters and pos >= 0. Each raised error is validated: index bounds, not beyond the foreign character, line/column recomputed, None/None iff ParseError at end of input, message numbers, two-line excerpt, caret under text[index], excerpt from the error line.',
          'Line breaks are \\n only; part (ii) grammars are lookbehind-free.'),
